@@ -24,6 +24,7 @@ fn mkbox(x) { var b = Box.new(); b.f = x; return b; }
 fn mkinst(u) { var i = Inst.new(); i.a = [u, "a" + "x"]; i.b = (u, "b"); return i; }
 fn mkclo(x) { return || { return x; }; }
 fn getiter(v) { return v.iter; }
+fn emptyslices(t) { var a = t[1..1]; a = nil; churn(1); var b = t[0..0]; churn(1); var c = t[2..2]; churn(1); return [b.len(), c.len(), t[1..1].len(), b == c, type(b) == type(t)]; }
 fn rsum(v) { var t = 0; for r in v { for x in r { t = t + x; } } return t; }
 fn rangeeq(u) { var a = u..(u + 3); var m = {a: [u]}; churn(1); return (a == u..(u + 3), m.has_key(u..(u + 3)), m.get(u..(u + 3))); }
 fn drain_twice(it) { var n = 0; for x in it { n = n + 1; } churn(1); for x in it { n = n + 100; } churn(1); try { it.next(); n = n + 1000; } catch e { n = n + 10; } return n; }
@@ -277,6 +278,9 @@ OPS = [
     # an equal range literal evaluated after allocations in between is == to the range held in a variable, and finds it as a key
     "rangeeq({u})",
     # more distinct literal ranges in one compilation unit than the interpreter's range cache holds
+    # empty slices taken one after the other, with collections in between
+    "emptyslices(({u}, [{u}], 3))",
+    "emptyslices([{u}, [{u}], 3])",
     "rsum([1..2, 1..3, 1..4, 1..5, 1..6, 1..7, 1..8, 1..9, 2..9, 3..9, 4..9, 5..9]) + {u}",
 ]
 # operations that fail: the error object is created while the operands are held only by the interpreter
